@@ -120,6 +120,12 @@ func (q *qLogFile) seekTS(
 		return 0, 0, err
 	}
 
+	if fileInfo.Size() == 0 {
+		// An empty file contains no records, so the record, if any, is in an
+		// older file.  Report this instead of a read error.
+		return 0, 0, errTSTooEarly
+	}
+
 	// Define the search scope.
 
 	// Start of the search interval (position in the file).
